@@ -337,6 +337,8 @@ func (x *Exec) execBlock(st *State, b *ssa.BasicBlock, from *ssa.BasicBlock) {
 	}
 }
 
+func r0pos(_ Term) token.Pos { return token.NoPos }
+
 func (x *Exec) doReturn(st *State, r *ssa.Return) {
 	x.retReached++
 	st.trace = append(st.trace, -1)
@@ -347,6 +349,30 @@ func (x *Exec) doReturn(st *State, r *ssa.Return) {
 	rets := make([]Value, len(r.Results))
 	for i, v := range r.Results {
 		rets[i] = x.operand(st, v)
+	}
+	for k, c := range x.ctr.NoReturn {
+		env := x.newEnv(st)
+		env.atReturn = true
+		env.rets = rets
+		t, err := env.evalBool(c.Expr)
+		if err != nil {
+			panic(fmt.Sprintf("%s:%d: noreturn: %v", c.File, c.Line, err))
+		}
+		x.oblige(st, "noreturn", fmt.Sprint(k), mkNot(t), r.Pos(), "no return when "+c.Expr)
+	}
+	for _, fr := range x.ctr.Fresh {
+		idx := retIndex(fr, x.ctr)
+		if idx < 0 {
+			for i, rn := range namedResults(x.fn) {
+				if rn == strings.TrimSpace(fr) {
+					idx = i
+				}
+			}
+		}
+		if idx >= 0 && idx < len(rets) && len(rets[idx].L) > 0 {
+			r := rets[idx].L[0]
+			x.oblige(st, "fresh", strings.TrimSpace(fr), mkOr(mkEq(r, tZero), mkCmp(">", r, x.entry.top)), r0pos(r), "result is nil or allocated during this call")
+		}
 	}
 	for k, c := range x.ctr.Ensures {
 		env := x.newEnv(st)
